@@ -632,7 +632,14 @@ Section LB.
   (* vi_first_print_pos *)
   Definition vi_first_print_pos (b : lb) : res (option nat) :=
     match buf b with
-    | c :: _ => if u_is_whitespace U c then next_word_pos b 0 AtStart WBig 1 else Ok (Some 0)
+    | c :: _ =>
+      if u_is_whitespace U c then
+        (* .or(Some(0)): no next word, the motion stays at the start (repair of F25) *)
+        match next_word_pos b 0 AtStart WBig 1 with
+        | Ok None => Ok (Some 0)
+        | r => r
+        end
+      else Ok (Some 0)
     | [] => Ok (Some 0)
     end.
 
